@@ -47,8 +47,7 @@ def call(rf, corr, param, ow, as_str, model, kshape, mbm, via_cli=None):
         return 2, f'{type(ex).__name__}: {str(ex)[:100]}'
 
 
-def main():
-    run = Run('C10')
+def body(run):
     run.regenerate()
     run.build(extra_targets=['theories/Corr/CheckC10.v'])
     rng = run.rng('hist')
@@ -58,9 +57,7 @@ def main():
         d = run.work / f'h{hi}'
         (d / 'in').mkdir(parents=True)
         (d / 'out').mkdir()
-        g = synth.aligned_geom(rng, 24)
-        pair = fz.make_pair(d / 'in', g, rng, tag='i')
-        mbm, _ = fz.pick_block_mem(pair['src_fn'], pair['ref_fn'], 'auto', 4, (5, 5))
+        g, pair, mbm, _ = fz.workable_pair(d / 'in', rng, lambda r: synth.aligned_geom(r, 30), (5, 5), 4, tag='i')
         corr, param = d / 'out' / 'corr.tif', d / 'out' / 'corr_PARAM.tif'
         # pre-seed: nothing / junk bytes / a valid older product of another model
         pre = rng.choice(['none', 'corr-junk', 'param-junk', 'both-junk', 'old-product', 'old-product'])
@@ -159,8 +156,7 @@ def main():
                        'directory; plus CLI runs; non-trivial = some requested output pre-exists; distinct = distinct (history, call index)')
     run.extra['input_distribution'] = dict(calls=dist, model_nontrivial=nt)
     run.trusted += ['translate/skeleton.py name map for _out_files; format side-cars (.aux.xml, .msk, .ovr) are allowed by the property']
-    run.finish()
 
 
 if __name__ == '__main__':
-    main()
+    Run('C10').guard(body)
